@@ -157,26 +157,55 @@ func checkTimeoutClause(r *ev.Run, w *qnet.World, st *stats) {
 			r.Violate("undecided-operator-without-round-timer", fmt.Sprintf("operator %d is undecided in round %d and its round timer is not armed", o.ID, prev), "c07-timeout", qnet.Artefact(w), nil, nil)
 			continue
 		}
-		w2 := w.Clone()
-		reps := w2.Apply(qnet.Event{Kind: qnet.Timeout, To: o.ID})
-		st.TimeoutChecks++
-		s := w2.Op(o.ID).Inst(w.C.Height).State
-		okRC := false
-		for _, id := range reps[0].Emitted {
-			m := w2.P.List[id].Signed
-			if m.Message.MsgType == specqbft.RoundChangeMsgType && m.Message.Round == prev+1 && len(m.Signers) == 1 && m.Signers[0] == o.ID {
-				okRC = true
+		// the clause is checked as the state is, and once more after the operator has learned that a
+		// later height is decided (the rest of the committee moved on): its running instance is
+		// still undecided and before the cut-off, so its timeout must still move it
+		for _, learned := range []bool{false, true} {
+			w2 := w.Clone()
+			variant := ""
+			if learned {
+				var signers []spectypes.OperatorID
+				for _, h := range w.C.Honest {
+					if h != o.ID && len(signers) < int(w.C.Share(o.ID).Quorum) {
+						signers = append(signers, h)
+					}
+				}
+				if w.C.Byz != 0 && len(signers) < int(w.C.Share(o.ID).Quorum) {
+					signers = append(signers, w.C.Byz)
+				}
+				if len(signers) < int(w.C.Share(o.ID).Quorum) {
+					continue
+				}
+				sort.Slice(signers, func(i, j int) bool { return signers[i] < signers[j] })
+				if err := w2.LearnDecided(o.ID, w.C.Height+1, 'A', signers); err != nil {
+					ev.Fatal("c07: certificate for the next height refused: %v", err)
+				}
+				variant = " after learning that the next height is decided"
 			}
-		}
-		okArm := false
-		for _, a := range reps[0].Arms {
-			if a.Height == w.C.Height && a.Round == prev+1 {
-				okArm = true
+			reps := w2.Apply(qnet.Event{Kind: qnet.Timeout, To: o.ID})
+			st.TimeoutChecks++
+			s := w2.Op(o.ID).Inst(w.C.Height).State
+			okRC := false
+			for _, id := range reps[0].Emitted {
+				m := w2.P.List[id].Signed
+				if m.Message.MsgType == specqbft.RoundChangeMsgType && m.Message.Height == w.C.Height && m.Message.Round == prev+1 && len(m.Signers) == 1 && m.Signers[0] == o.ID {
+					okRC = true
+				}
 			}
-		}
-		if reps[0].Err != nil || s.Round != prev+1 || s.ProposalAcceptedForCurrentRound != nil || !okRC || !okArm {
-			r.Violate("timeout-does-not-advance", fmt.Sprintf("timeout at operator %d in round %d: err=%v round=%d proposalCleared=%v roundChangeBroadcast=%v timerRearmed=%v",
-				o.ID, prev, reps[0].Err, s.Round, s.ProposalAcceptedForCurrentRound == nil, okRC, okArm), "c07-timeout", qnet.Artefact(w2), nil, nil)
+			okArm := false
+			for _, a := range reps[0].Arms {
+				if a.Height == w.C.Height && a.Round == prev+1 {
+					okArm = true
+				}
+			}
+			if reps[0].Err != nil || s.Round != prev+1 || s.ProposalAcceptedForCurrentRound != nil || !okRC || !okArm {
+				sig := "timeout-does-not-advance"
+				if learned {
+					sig += " (later height learned as decided)"
+				}
+				r.Violate(sig, fmt.Sprintf("timeout at operator %d in round %d%s: err=%v round=%d proposalCleared=%v roundChangeBroadcast=%v timerRearmed=%v",
+					o.ID, prev, variant, reps[0].Err, s.Round, s.ProposalAcceptedForCurrentRound == nil, okRC, okArm), "c07-timeout", qnet.Artefact(w2), nil, nil)
+			}
 		}
 	}
 }
